@@ -219,7 +219,7 @@ def run(sc: dict) -> Result:
                 if e[1] == "connected":
                     open_now += 1
                     worst = max(worst, open_now)
-                elif e[1] in ("close", "close_dealloc"):
+                elif e[1] in ("close", "close_dealloc", "close_dealloc_fp"):
                     sid = e[2]
                     if w.sockets[sid].connected:
                         open_now -= 1
@@ -241,6 +241,12 @@ def run(sc: dict) -> Result:
         left = w.open_sockets()
         if left:
             res.bad("socket_open_after_pool_dropped", f"{len(left)} sockets still open: {left}")
+        # ... and "closed" means closed by urllib3 (close() or the pool's finalizer), not merely reclaimed when the
+        # last reference to the socket object happened to go away: until then the descriptor stays open
+        # (on CPython a ResourceWarning, on other interpreters until some later collection)
+        by_gc = [e[2] for e in w.events if e[1] == "close_dealloc"]
+        if by_gc:
+            res.bad("socket_closed_only_by_garbage_collection", f"sockets {by_gc} were never closed by urllib3; only deallocation of the socket object released them")
         if sched.preemptions:
             res.probes["preempted"] += 1
         if any(x[1] == "block" and x[2] == "notempty" for x in sched.trace):
